@@ -250,10 +250,31 @@ func (p *Prog) Callees(site ssa.CallInstruction) []*ssa.Function {
 	}
 	var out []*ssa.Function
 	seen := map[*ssa.Function]bool{}
+	var add func(f *ssa.Function, depth int)
+	add = func(f *ssa.Function, depth int) {
+		if seen[f] {
+			return
+		}
+		seen[f] = true
+		// a compiler-made forwarding wrapper around a method of the module
+		// (method expression, bound method) stands for the method it forwards to
+		if moduleWrapper(f) && depth < 2 {
+			for _, b := range f.Blocks {
+				for _, instr := range b.Instrs {
+					if c, ok := instr.(ssa.CallInstruction); ok {
+						if sc := c.Common().StaticCallee(); sc != nil {
+							add(sc, depth+1)
+						}
+					}
+				}
+			}
+			return
+		}
+		out = append(out, f)
+	}
 	for _, e := range n.Out {
-		if e.Site == site && !seen[e.Callee.Func] {
-			seen[e.Callee.Func] = true
-			out = append(out, e.Callee.Func)
+		if e.Site == site {
+			add(e.Callee.Func, 0)
 		}
 	}
 	sort.Slice(out, func(i, j int) bool { return out[i].String() < out[j].String() })
@@ -417,6 +438,15 @@ func (p *Prog) globalReadOnly1(g *ssa.Global) (bool, string) {
 					why = "passed to " + b.Name() + " at " + at
 					return false
 				}
+				isArg := false
+				for _, a := range cc.Args {
+					if a == v {
+						isArg = true
+					}
+				}
+				if !isArg && !cc.IsInvoke() && cc.Value == v {
+					continue // a function value taken from the table is called: the table is not touched
+				}
 				sc := cc.StaticCallee()
 				if sc == nil {
 					why = "passed to a dynamic call at " + at
@@ -529,6 +559,11 @@ func (p *Prog) initCell(path string) (Val, bool) {
 			}
 		}
 		p.initReady = true
+		if os.Getenv("SC_TRACE9") != "" {
+			for k, v := range p.initHeap {
+				fmt.Fprintf(os.Stderr, "init heap: %s = %s\n", k, v)
+			}
+		}
 	})
 	if !p.initReady {
 		return Val{}, false
@@ -550,4 +585,20 @@ func (p *Prog) initCellsUnder(prefix string) (Val, bool) {
 		}
 	}
 	return res, n > 0
+}
+
+// initHasRoot: the package initialisers wrote the variable or object root.
+func (p *Prog) initHasRoot(root string) bool {
+	if _, ok := p.initCell(root); ok {
+		return true
+	}
+	if !p.initReady {
+		return false
+	}
+	for k := range p.initHeap {
+		if strings.HasPrefix(k, root) && len(k) > len(root) && (k[len(root)] == '.' || k[len(root)] == '[') {
+			return true
+		}
+	}
+	return false
 }
